@@ -152,7 +152,7 @@ class C10(BaseCheck):
                  'col_meta_set', 'col_meta_append', 'col_meta_extend', 'col_assign',
                  'append', 'insert', 'extend', 'iadd', 'setitem', 'row_poke']
         enabled = [x for x in kinds if k.random() < 0.7] or ['append']
-        n = k.choice([2, 3, 4, 6, 8, 12])
+        n = k.choice([2, 3, 4, 6, 8, 12]) if tier == 'quick' else k.choice([3, 6, 12, 20, 30])
         ops = []
         for j in range(n):
             op = r.choice(enabled)
